@@ -934,6 +934,9 @@ R7RS_ARITY_C14 = {
     "list-tail": (2, 2), "list-ref": (2, 2), "list?": (1, 1), "vector": (0, None), "make-vector": (1, 2), "vector-length": (1, 1),
     "vector-ref": (2, 2), "vector-set!": (3, 3), "vector-fill!": (2, 4), "vector->list": (1, 3), "list->vector": (1, 1),
     "vector-copy": (1, 3), "vector-copy!": (3, 5), "equal?": (2, 2), "eqv?": (2, 2), "eq?": (2, 2),
+    # defined in the prelude
+    "list": (0, None), "length": (1, 1), "memq": (2, 2), "memv": (2, 2), "member": (2, 3), "assq": (2, 2), "assv": (2, 2),
+    "assoc": (2, 3), "map": (2, None), "for-each": (2, None),
 }
 RANGE_PROCS = ["marwood::vm::builtin::vector::vector_copy", "marwood::vm::builtin::vector::vector_mut_copy",
                "marwood::vm::builtin::vector::vector_range"]
